@@ -78,6 +78,15 @@ type thread struct {
 	panicStk  string
 	started   bool
 	completed bool
+	// busy-wait detection (see Sched.SpinLimit)
+	spinSet  []spinEnt
+	spinCnt  int
+	spinning bool
+}
+
+type spinEnt struct {
+	obj *objState
+	ver int64
 }
 
 type objState struct {
@@ -85,6 +94,7 @@ type objState struct {
 	held    bool // mutex
 	readers int  // rwmutex
 	owner   int
+	ver     int64 // bumped by every store/cas/swap/add on the object
 }
 
 // Sched is one controlled execution environment. Exactly one may be installed at a time.
@@ -110,6 +120,11 @@ type Sched struct {
 	epoch      uint64
 	PoolChoice bool // Pool.Get is a data choice point
 	MaxPoints  int  // safety horizon; exceeded => Diverged
+	// SpinLimit makes busy-waiting visible. A thread that executes nothing but atomic loads and has
+	// re-read an (object, version) pair it already read in that run of loads more than SpinLimit
+	// times cannot observe anything new until one of those objects is written: it is disabled until
+	// then. If no thread is enabled the execution is a deadlock whose info names the busy-waiter.
+	SpinLimit int
 }
 
 var (
@@ -124,7 +139,7 @@ func Active() bool { return curFlag.Load() }
 // NewSched creates a scheduler that replays prefix and then always takes alternative 0.
 func NewSched(prefix []int) *Sched {
 	epochCtr++
-	return &Sched{choices: prefix, finished: make(chan struct{}, 1), epoch: epochCtr, MaxPoints: 1 << 20}
+	return &Sched{choices: prefix, finished: make(chan struct{}, 1), epoch: epochCtr, MaxPoints: 1 << 20, SpinLimit: 16}
 }
 
 // Install makes s the current scheduler. Shim operations executed before Run (setup phase) act
@@ -170,6 +185,19 @@ func (s *Sched) enabled(t *thread) bool {
 	}
 	if !t.started {
 		return true
+	}
+	if t.spinning {
+		changed := false
+		for _, e := range t.spinSet {
+			if e.obj.ver != e.ver {
+				changed = true
+				break
+			}
+		}
+		if !changed {
+			return false
+		}
+		t.spinning, t.spinCnt, t.spinSet = false, 0, t.spinSet[:0]
 	}
 	switch t.pending {
 	case OpLock:
@@ -222,6 +250,28 @@ func (s *Sched) point(kind OpKind, obj *objState, label string) {
 		s.abortFrom(t)
 		panic(abortSignal{})
 	}
+	if kind == OpLoad && obj != nil && s.SpinLimit > 0 {
+		seen := false
+		for _, e := range t.spinSet {
+			if e.obj == obj && e.ver == obj.ver {
+				seen = true
+				break
+			}
+		}
+		if seen {
+			if t.spinCnt++; t.spinCnt > s.SpinLimit {
+				t.spinning = true
+			}
+		} else {
+			if len(t.spinSet) >= 64 {
+				t.spinSet = t.spinSet[:0]
+			}
+			t.spinSet = append(t.spinSet, spinEnt{obj, obj.ver})
+			t.spinCnt = 0
+		}
+	} else if len(t.spinSet) > 0 {
+		t.spinSet, t.spinCnt = t.spinSet[:0], 0
+	}
 	next := s.pickNext(t)
 	if next == nil {
 		// t itself is blocked and nobody else can run: deadlock (or only daemons left).
@@ -236,6 +286,9 @@ func (s *Sched) point(kind OpKind, obj *objState, label string) {
 		}
 	}
 	s.clock++
+	if obj != nil && (kind == OpStore || kind == OpCAS || kind == OpSwap || kind == OpAdd) {
+		obj.ver++
+	}
 	s.Counts[kind]++
 	s.PerThread[t.id][kind]++
 	if s.LogEvent {
@@ -262,7 +315,11 @@ func (s *Sched) noneEnabled(me *thread) {
 			real = true
 		}
 		if !t.done {
-			info += fmt.Sprintf("[T%d blocked on %s]", t.id, t.pending)
+			if t.spinning {
+				info += fmt.Sprintf("[T%d busy-waits: re-read the same atomic values %d times]", t.id, t.spinCnt)
+			} else {
+				info += fmt.Sprintf("[T%d blocked on %s]", t.id, t.pending)
+			}
 		}
 	}
 	if real {
